@@ -211,6 +211,7 @@ def run(ck, fb):
         sd = util.sends(rp, r'NamingCmd$', 'ClusterRefreshProcessRange')
         ck.require(len(sd) >= 1 and all(cfg.origin_fields(rp, a['ops'][0])[-1:] == ['current_range'] or Taint(rp, place_src=field_place_src('current_range')).op_tainted(a['ops'][0]) for (s0, m0, v0, a) in sd),
                    'R14f', 'refresh_process_range:sends-current', rp.where(), 'refresh_process_range does not send current_range to the naming actor')
+    r14g(ck, fb)
     ck.rule('R14e', 'ownership use: NamingActor::update_instance computes at_process_range = current_range.is_range(get_hash_value(key)) and '
                     'clears from_cluster / client_id only when in range and not gRPC')
     nu = ck.body(NA + 'update_instance', 'R14e')
@@ -222,3 +223,35 @@ def run(ck, fb):
             ck.require(t.op_tainted(s.args[1]) and util.recv_fields(nu, s)[-1:] == ['0'] or t.op_tainted(s.args[1]), 'R14e', 'update_instance:hash-of-key', s.where(), 'is_range is not applied to the hash of the service key')
             hv2 = nu.calls(r'get_hash_value')
             ck.require(len(hv2) >= 1, 'R14e', 'update_instance:get_hash_value', nu.where(), 'get_hash_value not used')
+
+
+def r14g(ck, fb, R='R14g'):
+    ck.rule(R, 'a view change is never dropped on the way: the owner range is pushed to the naming actor, and node / client changes travel between the '
+               'cluster actors, with Addr::do_send or an awaited send - never try_send, which refuses the message when the 16-slot mailbox is full '
+               '(a busy naming actor then keeps the old range while routing already uses the new one, until some later change)')
+    region = [b for b in fb.bodies.values() if b.name.startswith('rnacos::naming::cluster::') or b.name.startswith('<rnacos::naming::cluster::')
+              or b.name.startswith('rnacos::naming::core::NamingActor::') or b.name.startswith('<rnacos::naming::core::NamingActor as ')]
+    n = 0
+    bad = []
+    for b in region:
+        if '::tests::' in b.name or 'seeded_demo' in b.name:
+            continue
+        for (s0, msg, v, a) in util.sends(b):
+            n += 1
+            if s0.callee.endswith('::try_send'):
+                bad.append((b, s0, msg, v))
+    ck.floor(R, 'actor sends in naming cluster code', n, 30)
+    rp = fb.bodies.get(INM + 'refresh_process_range')
+    if rp:
+        kinds = sorted(set(s0.callee.split('::')[-1] for (s0, m0, v0, a0) in util.sends(rp, r'NamingCmd$', 'ClusterRefreshProcessRange')))
+        ck.require(kinds in (['do_send'], ['send']), R, 'refresh_process_range:push-cannot-be-refused', rp.where(),
+                   'the owner range is pushed to the naming actor with %s: a refused push leaves NamingActor.current_range behind the range the node manager '
+                   'routes with - two nodes consider themselves owner of a service, or none does' % kinds, 'pushed with %s' % kinds)
+    for (b, s0, msg, v) in bad:
+        if rp is not None and b.name == rp.name:
+            continue
+        ck.bad(R, 'try_send:%s:%s' % (fb.root_of(b.name), (msg or '').split('::')[-1]), s0.where(),
+               '%s hands %s%s to another actor with try_send: the message is refused when the mailbox is full and the cluster view / registry change it carries is lost'
+               % (fb.root_of(b.name), msg, ('::' + v) if v else ''))
+    if not bad:
+        ck.ok(R, 'no-try_send', '', '%d sends, none bounded' % n)
